@@ -14,6 +14,7 @@ environment events (cache eviction, global-RNG perturbation, solver failure).  O
 """
 import hashlib
 import json
+import os
 
 import numpy as np
 
@@ -275,7 +276,7 @@ class PuritySim:
                 "ops": st["ops"], "env": st["env"], "faults_fired": st["faults_fired"], "checked": st["checked"], "reference_reads": self.ref.requests,
                 "unchecked": st["unchecked"], "probes": st["probes"], "cache_states": sorted(st["cache_states"]), "order_pairs": sorted(st["order_pairs"]),
                 "signature": sig, "nontrivial": bool(nontrivial), "sim_ticks": self.clock.ticks if self.clock else 0, "build_skips": st["build_skips"],
-                "core_built": bool(core), "i3_checked": st["i3_checked"],
+                "core_built": bool(core), "i3_checked": st["i3_checked"], "call_outcomes": st.get("call_outcomes", {}),
             },
             "log_digest": self.log.digest(),
         }
@@ -513,6 +514,13 @@ class PuritySim:
         except (Exception, SystemExit) as e:  # noqa: BLE001 - exceptions are outcomes
             exc = e
             tree = ("exc", type(e).__name__)
+        if q["t"] in ("call", "fn", "userfunc"):
+            # reach of the query catalogue: a call that only ever raises (on both sides) compares nothing
+            co = self.stats.setdefault("call_outcomes", {})
+            ck = f"{tn}.{label}|{'value' if exc is None else type(exc).__name__}"
+            if exc is not None and os.environ.get("VERIF_DEBUG_CALLS"):
+                ck += ": " + str(exc)[:90].replace("|", "/")  # diagnostic runs only: why a query never returns a value
+            co[ck] = co.get(ck, 0) + 1
         key = (target, json.dumps(q, sort_keys=True))
         pop = catalog.populated(obj)
         self.stats["cache_states"].add(f"{tn}:{','.join(pop)}")
@@ -632,7 +640,8 @@ class PuritySim:
         graph_nodes = [n for n in ids if self.world.passed.get(n)]
         n_sweep = 0
         if graph_nodes and rs.random() < 0.5:
-            t = rs.choice(graph_nodes)
+            # weighted by how many cached quantities a node has: an inversion (about forty) is swept far more often than an array (none)
+            t = rs.choices(graph_nodes, weights=[1 + len(catalog.cached_names(type(self.world.env[n]))) for n in graph_nodes])[0]
             names = [n for n in catalog.cached_names(type(self.world.env[t])) if not n.startswith("_")]
             rs.shuffle(names)
             sweeper = rs.choice(clients)
@@ -742,7 +751,7 @@ class PuritySim:
             if rs.random() < 0.3:
                 # ask-then-derive-then-ask-again: a query call on the source immediately before the derivation, the same call
                 # on the derived object right after it ("objects later derived from it")
-                calls = [c for c in catalog.curated_calls(env[src], rs, self.nodes_by_type()) if c["t"] == "call"]
+                calls = [c for c in catalog.curated_calls(env[src], rs, self.nodes_by_type(), env) if c["t"] == "call"]
                 if calls:
                     c = rs.choice(calls)
                     client["queue"].insert(0, {"op": "read", "client": client["name"], "target": nid, "q": c})
@@ -769,7 +778,7 @@ class PuritySim:
         names = catalog.readable_names(obj)
         p_call = 0.3 if len(names) > 12 else 0.6
         if rs.random() < p_call:
-            calls = catalog.curated_calls(obj, rs, self.nodes_by_type())
+            calls = catalog.curated_calls(obj, rs, self.nodes_by_type(), self.world.env)
             if calls:
                 op = {"op": "read", "client": client["name"], "target": target, "q": rs.choice(calls)}
                 hist.append(op)
